@@ -88,7 +88,7 @@ def build(prop, tier, seed, acc, wall_s, violations, rule, level="exploration", 
 
 def write(ev):
     errs = validate(ev)
-    path = os.path.join(env.VERIF, "evidence", ev["property_id"] + ".json")
+    path = os.path.join(os.environ.get("VERIF_EVIDENCE_DIR") or os.path.join(env.VERIF, "evidence"), ev["property_id"] + ".json")
     os.makedirs(os.path.dirname(path), exist_ok=True)
     tmp = path + ".tmp"
     with open(tmp, "w") as f:
